@@ -79,10 +79,14 @@ func (v *Vue) evalVFor(ctx VueContext, node *html.Node, nodes []*html.Node, dept
 	skipCount := 0
 	result := []*html.Node{}
 	if vFor := helpers.GetAttr(node, "v-for"); vFor != "" {
+		skipsBefore := ctx.onceSkipCount()
 		loopNodes, err := v.evalFor(ctx, node, vFor, depth+1)
 		if err != nil {
 			return result, skipCount, err
 		}
+		// (instances left out because their v-once element was rendered earlier in this
+		// render are not the same as an empty collection)
+		skippedAsRendered := ctx.onceSkipCount() > skipsBefore
 
 		// loopNodes are fully evaluated (v-html, attributes and children were processed
 		// inside each iteration's scope); they are data now and must not be evaluated again.
@@ -92,7 +96,7 @@ func (v *Vue) evalVFor(ctx VueContext, node *html.Node, nodes []*html.Node, dept
 		// The v-else-if / v-else siblings that follow belong to the looped element: they are
 		// consumed here whatever the loop produced, and when it produced nothing the first
 		// of them whose condition holds (or the v-else) is rendered instead.
-		chosen := len(loopNodes) != 0
+		chosen := len(loopNodes) != 0 || skippedAsRendered
 		for j := 1; j < len(nodes); j++ {
 			nextNode := nodes[j]
 			// Skip text nodes (whitespace)
